@@ -91,10 +91,12 @@ impl TorrentMaps {
         info_hash: InfoHash,
         peer_id: PeerId,
         ip_version: IpVersion,
+        consumer_id: ConsumerId,
+        connection_id: ConnectionId,
     ) {
         let torrent_map = self.get_torrent_map_by_ip_version(ip_version);
 
-        torrent_map.handle_connection_closed(info_hash, peer_id);
+        torrent_map.handle_connection_closed(info_hash, peer_id, consumer_id, connection_id);
     }
 
     fn get_torrent_map_by_ip_version(&mut self, ip_version: IpVersion) -> &mut TorrentMap {
@@ -267,10 +269,18 @@ impl TorrentMap {
         out_messages.push((meta.into(), OutMessage::ScrapeResponse(out_message)));
     }
 
-    pub fn handle_connection_closed(&mut self, info_hash: InfoHash, peer_id: PeerId) {
+    pub fn handle_connection_closed(
+        &mut self,
+        info_hash: InfoHash,
+        peer_id: PeerId,
+        consumer_id: ConsumerId,
+        connection_id: ConnectionId,
+    ) {
         if let Some(torrent_data) = self.torrents.get_mut(&info_hash) {
             torrent_data.handle_connection_closed(
                 peer_id,
+                consumer_id,
+                connection_id,
                 #[cfg(feature = "metrics")]
                 &self.peer_gauge,
             );
@@ -541,8 +551,21 @@ impl TorrentData {
     pub fn handle_connection_closed(
         &mut self,
         peer_id: PeerId,
+        consumer_id: ConsumerId,
+        connection_id: ConnectionId,
         #[cfg(feature = "metrics")] peer_gauge: &::metrics::Gauge,
     ) {
+        // Only remove the peer if it was created through the closed
+        // connection. A connection can have attempted to announce with the
+        // peer id of a peer belonging to another connection.
+        let created_through_closed_connection = self.peers.get(&peer_id).is_some_and(|peer| {
+            peer.connection_id == connection_id && peer.consumer_id.0 == consumer_id.0
+        });
+
+        if !created_through_closed_connection {
+            return;
+        }
+
         if let Some(peer) = self.peers.swap_remove(&peer_id) {
             if peer.seeder {
                 self.num_seeders -= 1;
